@@ -347,6 +347,64 @@ def classify(pid, spec, cases, known):
     return viol, corr_breaks, known_hits
 
 
+def sort_protocol_tie(work):
+    """C17, deferred-sort ticket protocol.  harness/sortscan translates segment.RequestSort,
+    segmentStack.ensureSorted, every doSort call site and readyDeferredSort of /repo's CURRENT sources
+    into the IR of coq/SortProto.v (SortTable.v); SortTie.v proves the generated terms equal to the
+    programs the C17_sort_* theorems are about.  When that fails, the bounded explorer of SortProto.v
+    runs on the GENERATED programs (SortSearch.v, vm_compute): a violating schedule is the replay of a
+    VIOLATION, none found = obligation broken, no failing input found.
+    Returns (ok, problem or None, violation text or None, summary)."""
+    from checklib import (sh, VERIF, COQ, GOENV, Lock)
+    from checklib import REPO as REPO_DIR
+    gen = os.path.join(work, "sortgen")
+    os.makedirs(gen, exist_ok=True)
+    with Lock(os.path.join(BUILD, "lock")):
+        rc, out = sh(["go", "build", "-o", os.path.join(BUILD, "sortscan"), "."],
+                     cwd=os.path.join(VERIF, "harness", "sortscan"), env=GOENV, timeout=900)
+    if rc != 0:
+        return False, "sortscan does not build:\n" + out[-1500:], None, "sortscan: build failed"
+    rc, report = sh([os.path.join(BUILD, "sortscan"), "-dir", REPO_DIR, "-out", gen], timeout=300)
+    if rc != 0:
+        return (False, "the deferred-sort protocol of /repo is outside the IR of SortProto.v (no theorem applies, "
+                "no search possible):\n" + report[-1500:], None, "sortscan: untranslatable")
+    coqc = ["coqc", "-Q", COQ, "Moss", "-Q", gen, "Gen"]
+    rc, out = sh(coqc + [os.path.join(gen, "SortTable.v")], timeout=600)
+    if rc != 0:
+        return False, "SortTable.v (generated) does not compile:\n" + out[-1500:], None, "sortscan: table rejected"
+    rc, out = sh(coqc + [os.path.join(gen, "SortTie.v")], timeout=600)
+    if rc == 0:
+        return True, None, None, "generated RequestSort / ensureSorted / doSort sites = the proved programs"
+    which = "SortTie.v"
+    ml = re.search(r"line (\d+)", out)
+    if ml:
+        for ln in reversed(open(os.path.join(gen, "SortTie.v")).read().split("\n")[:int(ml.group(1))]):
+            me = re.match(r"Example (\w+)", ln)
+            if me:
+                which = me.group(1)
+                break
+    problem = ("the deferred-sort protocol in /repo is not the one the C17_sort_* theorems are about (%s fails):\n%s"
+               % (which, report[-1200:]))
+    rc, sout = sh(coqc + [os.path.join(gen, "SortSearch.v")], timeout=1500)
+    flat = " ".join(sout.split())
+    mv = re.search(r"= Violation (\{\|.*?\|\}) (\[.*?\]) \((V\w+ \d+ \d+)\)", flat)
+    if mv:
+        text = ("; deferred-sort ticket protocol: the bounded explorer (SortProto.search, vm_compute) on the programs\n"
+                "; generated from /repo finds a schedule with a violation (VWriteWrite s g: g enters the write section of\n"
+                "; segment s while another goroutine is inside; VWriteAfterRead: a sort starts on a segment a reader has\n"
+                "; searched; VReadInWrite: a reader searches s while it is being sorted; VReadUnsync: a reader searches s\n"
+                "; without happens-after the end of its sort; VClose: close of a closed channel)\n"
+                "; configuration (goroutine kinds; born-sorted flags): %s\n; schedule (goroutine, segment read): %s\n"
+                "; violation: %s\n; generated programs:\n; %s\n"
+                "; replay: sortscan -dir $VERIF_REPO -out D && coqc SortTable.v && "
+                "Eval vm_compute in replay (progs_of ...) <configuration> <schedule>\n"
+                % (mv.group(1), mv.group(2), mv.group(3), report.strip().replace("\n", "\n; ")))
+        return False, problem, text, "explorer: violation %s" % mv.group(3)
+    mn = re.search(r"= (NoViolation \d+ \d+|Incomplete .*)", flat)
+    return (False, problem + "\nbounded explorer on the generated programs: %s" % (mn.group(1)[:200] if mn else "failed: " + sout[-400:]),
+            None, "explorer: no violation")
+
+
 def run_c17(pid, tier, seed, replay):
     """C17: the access table is regenerated from /repo by lockscan and checked inside Coq."""
     import subprocess, json
@@ -386,6 +444,9 @@ def run_c17(pid, tier, seed, replay):
                 table_ok = rc2 == 0
                 if not table_ok:
                     problems.append("the regenerated access table does not satisfy check_table (table_ok fails):\n" + out2[-800:])
+        sp_ok, sp_problem, sp_violation, sp_summary = sort_protocol_tie(work)
+        if sp_problem:
+            problems.append(sp_problem)
         unjustified = [ln for ln in report.splitlines() if " JNone" in ln]
         out_lines, rc_final, nviol = [], 0, 0
         race_out = ""
@@ -414,7 +475,10 @@ def run_c17(pid, tier, seed, replay):
             rc_final = 1
             text = "; property C17\n; " + "\n; ".join(p.replace("\n", "\n; ") for p in problems) + "\n"
             text += "; unjustified accesses:\n" + "\n".join("; " + u for u in unjustified[:40]) + "\n"
-            if "DATA RACE" in race_out:
+            if sp_violation:
+                path = write_replay_text(pid, "sortproto", text + sp_violation)
+                out_lines.append("VIOLATION property=%s replay=%s" % (pid, path))
+            elif "DATA RACE" in race_out:
                 text += "; race detector output of harness/racework (go test -race):\n" + race_out[:6000]
                 path = write_replay_text(pid, "race", text)
                 out_lines.append("VIOLATION property=%s replay=%s" % (pid, path))
@@ -424,12 +488,13 @@ def run_c17(pid, tier, seed, replay):
                 out_lines.append("VIOLATION property=%s replay=%s no-failing-input-found" % (pid, path))
         samples = [ln for ln in report.splitlines() if re.match(r"\S+\.go:\d+", ln)][:6]
         coverage = dict(
-            obligations=po["obligations"] + 1, discharged=po["discharged"] + (1 if table_ok else 0),
+            obligations=po["obligations"] + 2, discharged=po["discharged"] + (1 if table_ok else 0) + (1 if sp_ok else 0),
+            sort_protocol_tie=sp_summary,
             checker_cmd="make -C /verif/coq && coqc props/C17.v && lockscan -dir /repo -coq Table.v && coqc Table.v (Example table_ok by vm_compute)",
             trusted_base=TRUSTED_BASE + ["lockscan (Go, go/packages + go/types): the translator that extracts every access to the "
                                          "lock-protected fields of collection and Store and its justification; its classification rules "
                                          "are trusted; the link between a justification label and `disciplined` is by inspection, not proved"],
-            theorems=po["theorems"] + ["table_ok (regenerated)"], axioms=po["axioms"],
+            theorems=po["theorems"] + ["table_ok (regenerated)", "generated_progs_are_current (regenerated)"], axioms=po["axioms"],
             programs=1, disagreements_checked=unjust if unjust >= 0 else 0,
             evaluations=sum(counts.values()), distinct_nontrivial=sum(v for k, v in counts.items() if k != "JConstructor"),
             rule="every read/write of a lock-protected field of `collection` and `Store` in non-test files, found through "
